@@ -211,5 +211,22 @@ def run(ctx):
         else:
             R.violation('c', 'R5', 'aggregate_signatures: proof.signatures and batch path indices <- selection result',
                         'aggregate_signatures:from-selection', 'signatures from selection: %s, batch path from selection: %s' % (ok_sig, ok_path), af.loc())
+        # every input signature reaches the selection routine: no order/multiplicity normalising collection
+        # (e.g. a map keyed by the unauthenticated signer index) between `sigs` and the verified selection
+        from engine import flows_forward, LOSSY_COLLECTIONS
+        sel = [c for c in body.calls() if any(glob_match(SELECT, n) for n in c.names())]
+        for c in sel:
+            a = c.args[2]
+            tgt = a[1][0] if a[0] in ('copy', 'move') else None
+            seq_ok = tgt is not None and tgt in flows_forward(body, {2}, True, avoid_types=LOSSY_COLLECTIONS)
+            # closures that handle the items must not build such collections either
+            lossy_locals = [l for l, (ty, nm) in enumerate(body.locals) if any(x in ty for x in LOSSY_COLLECTIONS)
+                            and l in flows_forward(body, {2}, True)]
+            inst = 'aggregate_signatures: every input signature is handed to the selection (no pre-verification de-duplication)'
+            if seq_ok and not lossy_locals:
+                R.ok('c', 'R5', inst, '', af.loc())
+            else:
+                R.violation('c', 'R5', inst, 'aggregate_signatures:all-inputs', 'the signatures reach the selection routine only through a map/set '
+                            '(locals %s): an unverified signature can evict a valid one before verification' % [body.lname(l) for l in lossy_locals][:4], af.loc())
         ctx.arg_origin('c', AGG, SELECT, 1, require=['p#3'], forbid=['p#2*'], desc='(msg) <- msg')
         ctx.arg_origin('c', AGG, SELECT, 2, require=['p#2'], desc='(signatures) <- sigs')
